@@ -337,12 +337,13 @@ class RoutingActivationResponse:
 
     @classmethod
     def unpack(cls, data: bytes) -> Self:
+        # The trailing four OEM specific bytes are optional.
         (
             source_address,
             target_address,
             routing_activation_response_code,
             reserved,
-        ) = struct.unpack("!HHBI", data)
+        ) = struct.unpack("!HHBI", data[:9])
         if reserved != 0x00000000:
             raise ValueError("reserved field contains data")
         return cls(
